@@ -7,8 +7,19 @@
    string or a text() expression, as a list of code points); named unique constraints; named indexes
    (unique or not) over plain columns; named foreign keys (single- or multi-column, possibly
    self-referential, with ON UPDATE / ON DELETE / DEFERRABLE / INITIALLY options in any casing).  Names are interned as N.
-   Outside: CHECK constraints, comments, unnamed constraints, expression
-   indexes, schemas other than the default one, computed / identity columns. *)
+   Outside, and what the code does with it on SQLite (each confirmed on the real code; the harness decorates schemas with the
+   first two kinds and the comparison must be unaffected):
+   - CHECK constraints: SQLAlchemy reflects them, autogenerate has no comparator for them: a CHECK that is added, removed or
+     changed is never reported; it only travels inline inside CreateTableOp.  C06 is silent about them (no operation mentions
+     them, database and model may differ in them for ever), C07 does not list them.
+   - expression indexes (Index(name, func.lower(col)) / Index(name, text(...))): SQLAlchemy's SQLite dialect skips them when
+     reflecting ("Skipped unsupported reflection of expression-based index"), and DefaultImpl._skip_functional_indexes drops a
+     metadata expression index whose name is not among the reflected ones (always, then) with a warning: they are invisible on both
+     sides, never created (not even for a new table), dropped or altered by autogenerate, never shown to the filters.
+   - table / column comments: not a SQLite feature (dialect.supports_comments is False, the comparators return at once).
+   - identity columns; foreign key MATCH.
+   Unnamed unique constraints (t_uuqs) are modelled for the correspondence (the unnamed_metadata_uniques / conn_uniques_by_sig
+   branch, the name filter with name None); the C06 / C07 / C20-conservativity theorems assume there are none. *)
 From AV Require Export Base.ListSet.
 
 (* ---------------------------------------------------------------- data *)
@@ -48,7 +59,11 @@ Definition no_opts : fkopts := mkFkOpts None None None None.
    f_name is then only a handle that tells the keys of a table apart, never shown to alembic *)
 Record fk := mkFk { f_name : N; f_cols : list N; f_rtable : N; f_rcols : list N; f_opts : fkopts; f_named : bool }.
 
-Record table := mkTable { t_name : N; t_cols : list col; t_cons : list cons; t_fks : list fk }.
+(* UniqueConstraint(cols) without a name (SQLite reflects it with name None); u_h is only a handle *)
+Record uuq := mkUuq { u_h : N; u_cols : list N }.
+Definition uuq_eqb (a b:uuq) : bool := list_eqb N.eqb (u_cols a) (u_cols b).     (* the handle is not observable *)
+
+Record table := mkTable { t_name : N; t_cols : list col; t_cons : list cons; t_fks : list fk; t_uuqs : list uuq }.
 Definition schema := list table.
 
 (* ---------------------------------------------------------------- equality tests *)
@@ -102,13 +117,14 @@ Inductive op :=
 | OpAddCons (t:N) (k:cons)
 | OpDropCons (t:N) (ix:bool) (n:N)
 | OpAddFk (t:N) (f:fk)            (* CreateForeignKeyOp *)
-| OpDropFk (t:N) (n:N) (named:bool).   (* DropConstraintOp(type_='foreignkey'); named = false: constraint_name is None *)
+| OpDropFk (t:N) (n:N) (named:bool)
+| OpAddUUq (t:N) (u:uuq).   (* DropConstraintOp(type_='foreignkey'); named = false: constraint_name is None *)
 
 Definition op_table (o:op) : N :=
   match o with
   | OpCreateTable t => t_name t
   | OpDropTable t | OpAddColumn t _ | OpDropColumn t _ | OpAlterColumn t _ _ _ _ _ _ _ | OpAddCons t _ | OpDropCons t _ _
-  | OpAddFk t _ | OpDropFk t _ _ => t
+  | OpAddFk t _ | OpDropFk t _ _ | OpAddUUq t _ => t
   end.
 
 (* ---------------------------------------------------------------- DDL meaning *)
@@ -140,8 +156,9 @@ Definition apply_fop (o:op) (fs:list fk) : list fk :=
   | OpDropFk _ n _ => kremove f_name n fs
   | _ => fs
   end.
+Definition apply_uop (o:op) (us:list uuq) : list uuq := match o with OpAddUUq _ u => us ++ [u] | _ => us end.
 Definition apply_top (o:op) (t:table) : table :=
-  mkTable (t_name t) (apply_cop o (t_cols t)) (apply_kop o (t_cons t)) (apply_fop o (t_fks t)).
+  mkTable (t_name t) (apply_cop o (t_cols t)) (apply_kop o (t_cons t)) (apply_fop o (t_fks t)) (apply_uop o (t_uuqs t)).
 
 Definition apply_op (o:op) (S:schema) : schema :=
   match o with
@@ -212,7 +229,7 @@ Definition reflect_action (a:option (list N)) : option (list N) :=
 Definition reflect_fkopts (o:fkopts) : fkopts :=
   mkFkOpts (reflect_action (o_onupdate o)) (reflect_action (o_ondelete o)) (o_deferrable o) (option_map upper (o_initially o)).
 Definition reflect_fk (f:fk) : fk := mkFk (f_name f) (f_cols f) (f_rtable f) (f_rcols f) (reflect_fkopts (f_opts f)) (f_named f).
-Definition reflect_table (t:table) : table := mkTable (t_name t) (map reflect_col (t_cols t)) (t_cons t) (map reflect_fk (t_fks t)).
+Definition reflect_table (t:table) : table := mkTable (t_name t) (map reflect_col (t_cols t)) (t_cons t) (map reflect_fk (t_fks t)) (t_uuqs t).
 Definition reflect_sqlite (S:schema) : schema := map reflect_table S.
 
 (* ---------------------------------------------------------------- well-formedness (boolean) *)
@@ -250,5 +267,7 @@ Definition dflt_ok (d:dflt) : bool :=
    foreign keys by signature only, adds the B key under a name that is still taken (see C06_converge_fkname_refuted). *)
 Definition fk_names_okb (sig_eqb:fk->fk->bool) (fc fm:list fk) : bool :=
   forallb (fun mf => forallb (fun cf => implb (N.eqb (f_name cf) (f_name mf) && f_named mf && existsb (sig_eqb cf) fm) (sig_eqb mf cf)) fc) fm.
+(* "all constraints named" for unique constraints *)
+Definition no_unnamed_uq (S:schema) : bool := forallb (fun t => match t_uuqs t with [] => true | _ => false end) S.
 Definition defaults_ok (S:schema) : bool :=
   forallb (fun t => forallb (fun c => match c_default c with Some d => dflt_ok d | None => true end) (t_cols t)) S.
